@@ -77,29 +77,34 @@ def work(item):
 
     if kind == 'binary':
         d1, d2 = item[1], item[2]
-        pool = Pool(nslots=3, nbufs=3, solver=solver)
+        pool = Pool(nslots=4, nbufs=3, solver=solver)
         st0 = pool.initial()
         nheld = 0
-        for shared in (False, True):
+        for shared in (False, True, 'moved'):
             # shared: both operands are views of ONE user buffer (different dimensions over the same storage)
             setup = [Ins('EXTERNAL', t=0, x=d1, ext=0), Ins('EXTERNAL', t=1, x=d2, ext=0 if shared else 1), Ins('SIZED', t=2, x=d1)]
+            if shared == 'moved':
+                # the first operand got its dimension d1 by move assignment from a vector of that dimension into a self-owned vector of dimension d2
+                setup = [Ins('SIZED', t=0, x=d2), Ins('SIZED', t=3, x=d1), Ins('MOVEASSIGN', t=0, s1=3), Ins('DESTROY', t=3), Ins('EXTERNAL', t=1, x=d2, ext=1), Ins('SIZED', t=2, x=d1)]
             st = st0
             for ins in setup:
                 rs = pool.step(st, ins)
                 assert len(rs) == 1 and rs[0].status == 'ok' and rs[0].retval == 0, rs
                 st = rs[0].state
             for name, mk in BINARY:
+                if shared == 'moved' and 'external storage' in name:
+                    continue          # A is self-owned in this variant: a resizing assignment to it is legal
                 ins = mk() if mk else Ins('ROTMAT', t=2, s1=0, x=d2)
                 log = []
                 s = st.clone()
-                s.access_hook = make_monitor(pool, max(d1, d2) if shared else d1, d2, log)
+                s.access_hook = make_monitor(pool, max(d1, d2) if shared is True else d1, d2, log)
                 before = [raw_tuple(pool, s, k) for k in (0, 1, 2)]
                 bv = [pool.buffer_values(s, b) for b in (0, 1)] + [pool.values(s, 2)]
                 rs = pool.step(s, ins)
                 exstats.append(dict(pool.ex.stats))
                 prog = setup + [ins]
-                key = 'binary:%s%s' % (name, ':shared-buffer' if shared else '')
-                name = name + (' [both operands view one user buffer]' if shared else '')
+                key = 'binary:%s%s' % (name, {False: '', True: ':shared-buffer', 'moved': ':after-move'}[shared])
+                name = name + {False: '', True: ' [both operands view one user buffer]', 'moved': ' [A obtained its dimension by move assignment across dimensions]'}[shared]
                 ok = True
                 for r in rs:
                     if r.status == 'error':
@@ -125,7 +130,7 @@ def work(item):
                 if ok:
                     nheld += 1
         out['obligations'].append({'obligation': 'binary entry points with dimensions (%d,%d): exception, operands bit-identical, no access outside the operands' % (d1, d2),
-                                   'verdict': '%d of %d hold (each entry point with separate buffers and with both operands viewing one user buffer)' % (nheld, 2 * len(BINARY))})
+                                   'verdict': '%d of %d hold (each entry point with separate buffers, with both operands viewing one user buffer, and with a first operand that changed dimension by move assignment)' % (nheld, 3 * len(BINARY))})
         out['witnesses']['reachability'] += nheld
         pool.ex.stats['paths'] = 0
     elif kind == 'ctor':
@@ -218,7 +223,7 @@ def replay(chk, c):
         prog.append(ins)
     # give the external buffers recognisable contents
     pre = [Ins('DEFAULT', t=-1)]
-    res = native_replay(prog, nslots=3, nbufs=3)
+    res = native_replay(prog, nslots=4, nbufs=3)
     c['native'] = {'exit': res['exit'], 'rcs': [s['rc'] for s in res['steps']], 'report': (res['report'] or '')[:600]}
     if res['report']:
         return True, 'sanitizer/exit: ' + res['report'].strip().split('\n')[0][:200]
